@@ -166,10 +166,10 @@ def run(tier, seed):
     tasks = []
     if tier == 'quick':
         spec = [('A', True, 'message', 1), ('B', True, 'message', 1), ('C', True, 'message', 1), ('D1', True, 'message', 1), ('D2', True, 'message', 1),
-                ('E', True, 'message', 1), ('F', True, 'message', 1), ('G', True, 'message', 1), ('DUP', True, 'message', 1), ('DUP', False, 'message', 1)]
+                ('E', True, 'message', 1), ('E2', True, 'message', 1), ('F', True, 'message', 1), ('G', True, 'message', 1), ('DUP', True, 'message', 1), ('DUP', False, 'message', 1)]
     else:
-        spec = [(a, s, 'full', 2) for a in ('A', 'B', 'C', 'D1', 'D2', 'E', 'E1', 'F', 'G', 'DUP') for s in (True, False)
-                if not (s is False and a in ('A', 'D1', 'D2', 'E', 'E1', 'F', 'G'))]
+        spec = [(a, s, 'full', 2) for a in ('A', 'B', 'C', 'D1', 'D2', 'E', 'E1', 'E2', 'F', 'G', 'DUP') for s in (True, False)
+                if not (s is False and a in ('A', 'D1', 'D2', 'E', 'E1', 'E2', 'F', 'G'))]
     for arch, short, level, step in spec:
         sc = F.scenario(arch, short)
         base, plans = explore.first_level_tasks(sc, level=level, trunc_step=step)
